@@ -23,6 +23,8 @@ type ncsRecorder struct {
 	mu    sync.Mutex
 	posts []ncsclient.ReceiptPayload
 	fail  map[int]bool // requests (by arrival order) that are received and then fail
+	hold  map[int]bool // requests that are received but not answered before release is closed
+	release chan struct{}
 	srv   *httptest.Server
 	url   string
 }
@@ -35,12 +37,16 @@ func newNCSRecorder() *ncsRecorder {
 	r.srv = httptest.NewServer(http.HandlerFunc(func(w http.ResponseWriter, req *http.Request) {
 		b, _ := io.ReadAll(req.Body)
 		var p ncsclient.ReceiptPayload
-		failing := false
+		failing, holding := false, false
 		if json.Unmarshal(b, &p) == nil {
 			r.mu.Lock()
 			failing = r.fail[len(r.posts)]
+			holding = r.hold[len(r.posts)]
 			r.posts = append(r.posts, p)
 			r.mu.Unlock()
+		}
+		if holding {
+			<-r.release
 		}
 		if failing {
 			panic(http.ErrAbortHandler) // the service got the receipt, the client sees a broken connection
@@ -60,6 +66,25 @@ func (r *ncsRecorder) failAt(k int) {
 	}
 	r.fail[k] = true
 	r.mu.Unlock()
+}
+
+// holdAt plans that the k-th request is received but only answered after releaseAll.
+func (r *ncsRecorder) holdAt(k int) {
+	verifnd.NCSHold(k)
+	r.mu.Lock()
+	if r.hold == nil {
+		r.hold = map[int]bool{}
+		r.release = make(chan struct{})
+	}
+	r.hold[k] = true
+	r.mu.Unlock()
+}
+
+func (r *ncsRecorder) releaseAll() {
+	verifnd.NCSRelease()
+	if r.release != nil {
+		close(r.release)
+	}
 }
 
 func (r *ncsRecorder) recorded() []ncsclient.ReceiptPayload {
@@ -183,4 +208,55 @@ func hashCase(hc int) string {
 		return "hash_truncated"
 	}
 	return "hash_byte_flipped"
+}
+
+
+// VerifC19Bursts: two bursts of two well-formed receipts each; the credit service receives the first request
+// and keeps the forwarding goroutine waiting while the second burst is verified and forwarded; then it answers.
+// Every receipt reaches the service exactly once, unchanged.
+func VerifC19Bursts() {
+	rec := newNCSRecorder()
+	rec.holdAt(0)
+	ch := make(chan ncsclient.ReceiptPayload, 128)
+	rh := ReceiptHandler{NCSEndpoint: rec.url, ReceiptChan: ch}
+	ctx, cancel := context.WithCancel(context.Background())
+	key, _ := crypto.GenerateKey()
+	mk := func(text string) ncsclient.ReceiptPayload {
+		h := crypto.Keccak256Hash([]byte(text)).Bytes()
+		sig, err := crypto.Sign(h, key)
+		verifnd.Assert(err == nil, "setup.bursts.sign")
+		return ncsclient.ReceiptPayload{Receipt: text, Hash: h, Signature: sig}
+	}
+	texts := []string{"receipt-a", "receipt-b", "receipt-c", "receipt-d"}
+	ch <- mk(texts[0])
+	ch <- mk(texts[1])
+	rh.HandleReceipts(ctx)
+	verifnd.Quiesce()
+	if !verifnd.Symbolic() {
+		time.Sleep(200 * time.Millisecond)
+	}
+	ch <- mk(texts[2])
+	ch <- mk(texts[3])
+	verifnd.Quiesce()
+	if !verifnd.Symbolic() {
+		time.Sleep(200 * time.Millisecond)
+	}
+	rec.releaseAll()
+	verifnd.Quiesce()
+	got := rec.recorded()
+	for _, t := range texts {
+		n := 0
+		for _, g := range got {
+			if g.Receipt == t {
+				n++
+			}
+		}
+		verifnd.Assert(n == 1, "C19.bursts.each_forwarded_exactly_once", t)
+	}
+	verifnd.Assert(len(got) == len(texts), "C19.nothing_else_forwarded")
+	cancel()
+	if rec.srv != nil {
+		rec.srv.Close()
+	}
+	verifnd.Reach("C19.bursts.done")
 }
